@@ -205,6 +205,36 @@ def run(ctx):
             if targets != t_before or ignore != i_before:
                 viol.append({"what": "the caller's target_classes / namespaces_to_ignore list was modified", "before": [t_before, i_before],
                              "after": [list(targets), list(ignore)], "nt": nt_two})
+        # one rdflib Graph object handed to two Shapers with different namespaces_dict: the second must get what it gets on a graph of its own,
+        # and the caller's graph (its namespace bindings, its triples) stays as it was
+        import rdflib
+        stats["shared_rdflib_graphs"] = 0
+        for rep in range(3):
+            nt_g = "".join("<http://example.org/vocab#i%d> <%s> <http://example.org/vocab#Thing> .\n<http://example.org/vocab#i%d> <http://example.org/vocab#name> \"n\" .\n"
+                           "<http://example.org/vocab#i%d> <http://purl.example.org/dc/title> \"t\" .\n" % (k, RDF_TYPE, k, k) for k in range(3))
+            def mk():
+                g_ = rdflib.Graph()
+                g_.parse(data=nt_g, format="nt")
+                return g_
+            shared_g = mk()
+            binds_before = sorted((str(a_), str(b_)) for a_, b_ in shared_g.namespaces())
+            n_before = len(shared_g)
+            dict_a = {"http://example.org/vocab#": "v", "http://purl.example.org/dc/": "dc"} if rep % 2 == 0 else {"http://example.org/vocab#": "dc"}
+            dict_b = {} if rep < 2 else {"http://purl.example.org/dc/": "v"}
+            outs_shared, outs_own = [], []
+            for fmt in (C.SHEXC, C.SHACL_TURTLE):
+                Shaper(rdflib_graph=shared_g, all_classes_mode=True, namespaces_dict=dict(dict_a)).shex_graph(string_output=True, output_format=fmt)
+                outs_shared.append(Shaper(rdflib_graph=shared_g, all_classes_mode=True, namespaces_dict=dict(dict_b)).shex_graph(string_output=True, output_format=fmt))
+                outs_own.append(Shaper(rdflib_graph=mk(), all_classes_mode=True, namespaces_dict=dict(dict_b)).shex_graph(string_output=True, output_format=fmt))
+            stats["shared_rdflib_graphs"] += 1
+            pref = lambda t: sorted(l_ for l_ in t.split("\n") if l_.lower().startswith(("prefix", "@prefix")))
+            if outs_shared[0] != outs_own[0] or pref(outs_shared[1]) != pref(outs_own[1]):
+                viol.append({"what": "a Shaper given an rdflib Graph that an earlier Shaper (other namespaces_dict) has used does not get the result of a run on its own graph",
+                             "first_namespaces_dict": dict_a, "second_namespaces_dict": dict_b, "got": outs_shared[0][:500], "own_graph": outs_own[0][:500], "nt": nt_g})
+            binds_after = sorted((str(a_), str(b_)) for a_, b_ in shared_g.namespaces())
+            if binds_after != binds_before or len(shared_g) != n_before:
+                viol.append({"what": "the caller's rdflib Graph was modified (namespace bindings / triples)", "added_bindings": [b_ for b_ in binds_after if b_ not in binds_before],
+                             "first_namespaces_dict": dict_a, "nt": nt_g})
         # outputs above the flush boundaries (5000, 10000 lines)
         def big_graph(nclasses):
             return "".join('<http://e.org/i%d> <%s> <http://e.org/K%d> .\n<http://e.org/i%d> <http://e.org/p%d> "x" .\n' % (i, RDF_TYPE, i, i, i % 7)
